@@ -275,7 +275,7 @@ def n_leaves(a):
 # a program is a nested list: ["p",n] ["n",n] ["c",n] ["b"] | ["A",x,y] ["O",x,y] ["N",x] | ["IA",x,y] ["IO",x,y]
 #   | ["SL",x,y] ["SR",x,y] | ["XI",x] ["XU",x] | ["W",x]
 BIN = ("A", "O", "IA", "IO", "SL", "SR")
-UN = ("N", "XI", "XU", "W")
+UN = ("N", "XI", "XU", "W", "GL", "GR", "AA", "OO")      # GL/GR: x.left / x.right; AA/OO: x & x / x | x (oracle only)
 SETTERS = ("SL", "SR", "XI", "XU")
 
 
@@ -374,6 +374,18 @@ def run_program(p, basecell):
             raise Guard()
         a.operator = Operator.INTERSECTION if k == "XI" else Operator.UNION
         return a
+    if k in ("GL", "GR"):
+        # a sub-tree taken out of an object and used again (a cell UnitHalfSpace only means something under its complement)
+        if isinstance(a, UnitHalfSpace) or (k == "GR" and a.right is None):
+            raise Guard()
+        sub = a.left if k == "GL" else a.right
+        if isinstance(sub, UnitHalfSpace) and sub.is_cell:
+            raise Guard()
+        return sub
+    if k == "AA":
+        return a & a
+    if k == "OO":
+        return a | a
     b = run_program(p[2], basecell)
     if k == "A":
         return a & b
@@ -415,6 +427,16 @@ def shadow(p, base_ast):
     if k == "N":
         a = shadow(p[1], base_ast)
         return None if a is None else ("not", a)
+    if k in ("AA", "OO"):
+        a = shadow(p[1], base_ast)
+        return None if a is None else ("and" if k == "AA" else "or", a, a)
+    if k in ("GL", "GR"):
+        a = shadow(p[1], base_ast)
+        if a is None or a[0] in ("leaf", "cell"):
+            return None
+        if a[0] == "not":
+            return a[1] if k == "GL" else None
+        return a[1] if k == "GL" else a[2]
     if k in ("A", "O"):
         a = shadow(p[1], base_ast)
         b = shadow(p[2], base_ast)
@@ -651,13 +673,13 @@ def shrink(case, failing):
 
 
 # ---------------------------------------------------------------------------- case streams
-def make_case(rng, stream):
+def make_case(rng, stream, boost=0):
     if stream == "scratch":
-        d = rng.choice([1, 2, 2, 3, 3, 4, 5])
+        d = rng.choice([1, 2, 2, 3, 3, 4, 5]) + (rng.randint(0, boost) if boost else 0)
         return {"stream": stream, "base_lines": None, "prog": gen_prog(rng, d, False, False)}
     if stream == "scratch-setters":
         return {"stream": stream, "base_lines": None, "prog": gen_prog(rng, rng.choice([2, 3, 4]), False, True)}
-    items = gen_geom_items(rng, rng.choice([0, 1, 2, 2, 3, 3, 4]))
+    items = gen_geom_items(rng, rng.choice([0, 1, 2, 2, 3, 3, 4]) + (rng.randint(0, boost) if boost else 0))
     if stream == "unedited":
         return {"stream": stream, "base_lines": render_geom(rng, items, glue=0.5), "prog": None}
     if stream == "edited":
@@ -666,13 +688,44 @@ def make_case(rng, stream):
     if stream == "edited-setters":
         return {"stream": stream, "base_lines": render_geom(rng, items, glue=0.0),
                 "prog": gen_prog(rng, rng.choice([1, 2, 3]), True, True)}
-    if stream == "glued-setters":          # oracle only: blanks are below the model's level of abstraction
+    if stream == "layout-setters":         # every layout feature at once, with setters
+        return {"stream": stream, "base_lines": render_geom(rng, items, glue=0.5, breaks=0.3, comments=0.6, multi=0.4,
+                                                            width=rng.choice([24, 40, 64])),
+                "prog": gen_prog(rng, rng.choice([1, 2, 3]), True, True)}
+    if stream == "alias":                  # oracle only: sub-trees taken out with .left/.right and objects used twice
+        def wrap_alias(p):
+            if p[0] in ("p", "n", "c"):
+                return p
+            if p[0] == "b":
+                r = rng.random()
+                return ["GL", p] if r < 0.25 else ["GR", p] if r < 0.5 else ["AA", p] if r < 0.6 else ["OO", p] if r < 0.7 else p
+            q = [p[0]] + [wrap_alias(x) for x in p[1:]]
+            r = rng.random()
+            if p[0] in ("A", "O", "N", "b") and r < 0.2:
+                return [rng.choice(["AA", "OO", "GL", "GR"]), q]
+            return q
+        pr = wrap_alias(gen_prog(rng, rng.choice([1, 2, 3]), rng.random() < 0.7, False))
+        if not has_base(pr):
+            return {"stream": stream, "base_lines": None, "prog": pr}
+        return {"stream": stream, "base_lines": render_geom(rng, items, glue=0.3), "prog": pr}
+    if stream == "shortcut-edited":        # oracle only
+        c = make_case(rng, "shortcut", boost)
+        c["stream"] = stream
+        c["prog"] = gen_prog(rng, rng.choice([1, 2]), True, rng.random() < 0.5)
+        return c
+    if stream == "glued-setters":          # implicit intersections everywhere, on one line
         return {"stream": stream, "base_lines": render_geom(rng, items, glue=1.0, breaks=0.0),
                 "prog": gen_prog(rng, rng.choice([1, 2]), True, True)}
     if stream == "shortcut":               # oracle only: shortcuts inside cell geometry are not modelled
         a = rng.randint(1, 4)
         k = rng.randint(1, 3)
         b = a + k + 1
+        if rng.random() < 0.25:            # repeat: "3 2r" = 3 3 3
+            k = rng.randint(1, 2)
+            pre = gen_geom_items(rng, 1, cells=False) if rng.random() < 0.5 else []
+            lines = ["7 0 " + " ".join(pre + [str(a), "%dr" % k])]
+            read = ["7 0 " + " ".join(pre + [str(a)] * (k + 1))]
+            return {"stream": stream, "base_lines": lines, "base_read_lines": read, "prog": None}
         pre = gen_geom_items(rng, 1, cells=False) if rng.random() < 0.5 else []
         mid = [str(a), "%di" % k, str(b)]
         exp = [str(x) for x in range(a, b + 1)]
@@ -685,7 +738,36 @@ def make_case(rng, stream):
 
 
 def model_streams():
-    return ("scratch", "scratch-setters", "unedited", "edited", "edited-setters")
+    """streams whose cases are also run through the model (shortcut tokens are outside the model)"""
+    return ("scratch", "scratch-setters", "unedited", "edited", "edited-setters", "glued-setters", "layout-setters",
+            "corpus")
+
+
+def in_model(case):
+    return case.get("stream", "corpus") in model_streams() and not case.get("base_read_lines")
+
+
+def corr_mismatch(case, ob=None):
+    """single case through the extracted model -> None or {request, model, real}"""
+    ob = ob or observe(case)
+    if "read_error" in ob or not in_model(case):
+        return None
+    q = request_of(case, ob)
+    a = vlib.model_ask("Geom", [q])[0]
+    e = real_answer(ob)
+    return None if a == e else {"request": q, "model": a, "real": e}
+
+
+def full_check(case):
+    """oracle, then correspondence, on one case -> None or failure dict"""
+    ob = observe(case)
+    r = judge(case, ob)
+    if r is not None:
+        return r
+    m = corr_mismatch(case, ob)
+    if m is not None:
+        return {"kind": "correspondence", "detail": m}
+    return None
 
 
 def load_json_cases(d):
@@ -703,15 +785,10 @@ def replay(ctx, path):
     with open(path) as fh:
         c = json.load(fh)
     c = c.get("case", c)
-    ob = observe(c)
-    r = judge(c, ob)
-    bad = r is not None
-    if not bad and c.get("stream") in model_streams() + ("corpus",):
-        ok, _ = vlib.coq_make(["Model/Geom.vo"])
-        ans = vlib.model_ask("Geom", [request_of(c, ob)])[0]
-        bad = ans != real_answer(ob)
-    if bad:
-        print("REPLAY property=C02 still fails")
+    ok, _ = vlib.coq_make(["Model/Geom.vo"])
+    r = full_check(c) if ok else judge(c, observe(c))
+    if r is not None:
+        print("REPLAY property=C02 still fails: %s" % r.get("kind"))
         print(f"VIOLATION property=C02 replay={path}")
         return 1
     print("REPLAY property=C02 passes")
@@ -720,10 +797,12 @@ def replay(ctx, path):
 
 def run(ctx):
     quick = ctx.tier == "quick"
-    sizes = {"scratch": 1500 if quick else 40000, "scratch-setters": 300 if quick else 8000,
-             "unedited": 700 if quick else 20000, "edited": 900 if quick else 30000,
-             "edited-setters": 400 if quick else 10000, "glued-setters": 150 if quick else 3000,
-             "shortcut": 12 if quick else 200}
+    sizes = {"scratch": 1500 if quick else 30000, "scratch-setters": 400 if quick else 8000,
+             "unedited": 700 if quick else 15000, "edited": 1000 if quick else 25000,
+             "edited-setters": 500 if quick else 10000, "glued-setters": 300 if quick else 6000,
+             "layout-setters": 500 if quick else 10000, "alias": 300 if quick else 6000,
+             "shortcut": 40 if quick else 800, "shortcut-edited": 60 if quick else 1200}
+    depth_boost = 0 if quick else 2
     ctx.prove()
     ok, log = vlib.coq_make(["Model/Geom.vo"])
     if not ok:
@@ -733,17 +812,18 @@ def run(ctx):
     cases = []
     for f, c in load_json_cases(os.path.join(vlib.VERIF, "corpus", "C02")):
         c = dict(c)
+        c.setdefault("stream", "corpus")
         c["corpus"] = f
         cases.append(c)
     n_corpus = len(cases)
     for stream, n in sizes.items():
         for i in range(n):
-            cases.append(make_case(random.Random(f"{ctx.seed}:C02:{stream}:{i}"), stream))
+            cases.append(make_case(random.Random(f"{ctx.seed}:C02:{stream}:{i}"), stream, depth_boost))
 
     dist = {"streams": {}, "ops": {}, "outcomes": {}, "prog_size": {}, "leaves_written": {},
             "written_with_parens": 0, "base_leaves": {}, "base_with_redundant_parens": 0,
             "base_multiline": 0, "base_with_comment": 0, "base_glued": 0, "read_errors": 0,
-            "corpus": n_corpus, "oracle_unreadable_base": 0}
+            "corpus": n_corpus, "oracle_unreadable_base": 0, "distinct_leaves_compared": {}}
 
     def bump(d, k):
         d[k] = d.get(k, 0) + 1
@@ -751,8 +831,9 @@ def run(ctx):
     def bucket(n):
         return "1" if n <= 1 else "2-3" if n <= 3 else "4-7" if n <= 7 else "8-15" if n <= 15 else "16+"
 
+    TABLE_STATS.clear()
     reqs, expect, req_cases = [], [], []
-    tree_reqs, tree_expect = [], []
+    tree_reqs, tree_expect, tree_cases = [], [], []
     parse_reqs, parse_expect = [], []
     n_viol = 0
     for c in cases:
@@ -761,6 +842,10 @@ def run(ctx):
         bump(dist["streams"], stream)
         if "read_error" in ob:
             dist["read_errors"] += 1
+            if c.get("corpus"):
+                # a corpus case must stay readable
+                if ctx.fail({"kind": "read-error", "case": c, "detail": ob["read_error"]}):
+                    n_viol += 1
             continue
         if c.get("base_lines") and ob["base_ast"] is None:
             dist["oracle_unreadable_base"] += 1
@@ -780,6 +865,8 @@ def run(ctx):
         if ob.get("outcome") == "ok":
             bump(dist["leaves_written"], bucket(sum(1 for t in ob["written_tokens"] if t[0] in "LC")))
             dist["written_with_parens"] += "(" in ob["written_tokens"]
+            if ob.get("written_ast") is not None:
+                bump(dist["distinct_leaves_compared"], bucket(len(ast_leaves(ob["obj"]) | ast_leaves(ob["written_ast"]))))
         nontrivial = (ob.get("outcome") == "ok" and sum(1 for t in ob["written_tokens"] if t[0] in "LC") >= 2)
         ctx.count_case((c.get("base_lines"), c.get("prog")), nontrivial=nontrivial)
         # ---- oracle
@@ -792,7 +879,7 @@ def run(ctx):
                 if n_viol >= 3:
                     break
         # ---- correspondence requests
-        if stream in model_streams() or stream == "corpus":
+        if in_model(c):
             ctx.cov["programs"] += 1
             reqs.append(request_of(c, ob))
             expect.append(real_answer(ob))
@@ -800,6 +887,7 @@ def run(ctx):
             if c.get("base_lines"):
                 tree_reqs.append("tree " + (",".join(ob["base_tokens"]) or "-"))
                 tree_expect.append(ob["tree"])
+                tree_cases.append(c)
                 if ob["base_ast"] is not None:
                     parse_reqs.append("parse " + ",".join(ob["base_tokens"]))
                     parse_expect.append(show_ast(ob["base_ast"]))
@@ -813,22 +901,31 @@ def run(ctx):
 
     all_reqs = reqs + tree_reqs + parse_reqs
     all_exp = expect + tree_expect + parse_expect
+    all_cases = req_cases + tree_cases + [None] * len(parse_reqs)
     answers = vlib.model_ask("Geom", all_reqs)
     nx, bad = vlib.vm_crosscheck("Geom", all_reqs, answers, sample=60 if quick else 300, seed=ctx.seed)
     if bad:
         ctx.broken_obligations.append({"obligation": "extraction cross-check Geom", "detail": bad[:2]})
     mism = {"case": [], "tree": [], "parse": []}
-    for i, (q, a, e) in enumerate(zip(all_reqs, answers, all_exp)):
+    for q, a, e, c in zip(all_reqs, answers, all_exp, all_cases):
         ctx.cov["disagreements_checked"] += 1
         if a != e:
             kind = q.split(" ", 1)[0]
-            mism[kind].append({"request": q, "model": a, "real": e,
-                               "case": req_cases[i] if i < len(reqs) else None})
+            if kind == "case":
+                # a disagreement that an open finding explains (the defect is below the model's level of
+                # abstraction, e.g. the layout of the operator padding) is counted there
+                fid = ctx.attribute({"kind": "correspondence", "case": c})
+                if fid:
+                    ctx.filtered[fid] = ctx.filtered.get(fid, 0) + 1
+                    continue
+            mism[kind].append({"request": q, "model": a, "real": e, "case": c})
     if mism["case"]:
         first = min(mism["case"], key=lambda m: len(m["request"]))
+        small = shrink(first["case"], lambda cc: corr_mismatch(cc) is not None)
         ctx.broken_obligations.append({"obligation": "correspondence Geom.run_case vs HalfSpace operators + "
-                                       "Cell.format_for_mcnp_input (written tokens, object dump)",
-                                       "detail": {"n": len(mism["case"]), "first": first}})
+                                       "Cell.format_for_mcnp_input (written tokens, object dump, str(), syntax nodes)",
+                                       "detail": {"n": len(mism["case"]), "first": first, "shrunk": small,
+                                                  "shrunk_disagreement": corr_mismatch(small)}})
     if mism["tree"]:
         ctx.broken_obligations.append({"obligation": "correspondence Geom.tparse (actions) vs the GeometryTree built by CellParser",
                                        "detail": {"n": len(mism["tree"]), "first": min(mism["tree"], key=lambda m: len(m["request"]))}})
@@ -836,6 +933,8 @@ def run(ctx):
         ctx.broken_obligations.append({"obligation": "Geom.gparse (reference grammar) vs spec.parse_geometry",
                                        "detail": {"n": len(mism["parse"]), "first": min(mism["parse"], key=lambda m: len(m["request"]))}})
     dist["correspondence"] = {"case": len(reqs), "tree": len(tree_reqs), "parse": len(parse_reqs)}
+    dist["truth_tables"] = dict(TABLE_STATS, exhaustive_up_to_leaves=EXHAUSTIVE_LEAVES,
+                                sampled_assignments=SAMPLED_ASSIGNMENTS)
 
     # ---- known findings: replay the committed ones
     for fd in ctx.findings:
@@ -843,27 +942,32 @@ def run(ctx):
             try:
                 with open(os.path.join(vlib.VERIF, fd["replay"])) as fh:
                     c = json.load(fh)
-                fd["_reproduced"] = check_case(c.get("case", c)) is not None
+                fd["_reproduced"] = full_check(c.get("case", c)) is not None
             except Exception:
                 fd["_reproduced"] = False
 
     tb = vlib.KERNEL_TB + [
-        "modelled, not verified: montepy/surfaces/half_space.py (parse_input_node, operators, setters, _ensure_has_nodes, "
-        "_child_node, _update_node), GeometryTree.format, the geometry productions of CellParser and their actions, "
-        "Cell._update_values (geometry) as coq/Model/Geom.v at token level (blanks/comments/line breaks erased; object "
-        "identity as links; operands used linearly); the SLY LALR automaton itself is not modelled: the tree it builds is "
-        "compared with the tree of the modelled actions on every parsed case",
-        "spec.py (independent MCNP reader, truth tables) is the oracle; its parser is compared with the Coq reference "
-        "grammar's executable parser on every text",
+        "modelled, not verified: montepy/surfaces/half_space.py (parse_input_node, & | ~ &= |=, left/right/operator setters, "
+        "_ensure_has_nodes, _child_node, _strip_parentheses, _update_node, __str__), GeometryTree.format, the geometry "
+        "productions of CellParser and their actions, Cell._update_values (geometry) as coq/Model/Geom.v at token level "
+        "(blanks/comments/line breaks erased; object identity as links; operands used linearly)",
+        "harness/translate_grammar.py (Gen/Grammar.v from CellParser._grammar.Productions): C02_grammar_skeleton / "
+        "C02_padding_skeleton tie the modelled productions to it; the SLY LALR automaton itself is not modelled: "
+        "C02_grammar_sound covers every parse tree, and the tree the real parser builds is compared with the tree of "
+        "the modelled actions on every parsed case",
+        "spec.py (independent MCNP reader: card splitting, geometry tokens, parse_geometry) is the oracle; its parser is "
+        "compared with the Coq reference grammar's executable parser (C02_reference_parser_sound) on every text; "
+        "truth tables by props/C02.py truth_equal",
         f"vm_compute cross-check of {nx} requests",
     ]
     assumptions = [
-        "C02_write_* are statements about Geom.format_hs/ensure_has_nodes; they transfer to MontePy through the per-run "
-        "correspondence (tokens and object dumps equal on every generated case)",
-        "not modelled: shortcuts inside cell geometry (oracle only), blanks (implicit intersection ')(' after both sides were "
-        "replaced: oracle only), aliasing (one HalfSpace object used in two places and then modified in place), "
-        "the operator setter to/from COMPLEMENT",
-        "truth tables are exhaustive up to 12 distinct leaves, 4096 random assignments above (spec.geom_equal)",
+        "C02_write* are statements about Geom.format_hs/ensure_has_nodes; they transfer to MontePy through the per-run "
+        "correspondence (written tokens, object dump, str() and syntax-node dump equal on every generated case)",
+        "not modelled: shortcuts inside cell geometry (oracle only), the layout of blanks / comments / line breaks inside "
+        "the geometry (oracle only), aliasing (one HalfSpace object used in two places and then modified in place; a cell "
+        "UnitHalfSpace taken out of its complement with .left), the operator setter to/from COMPLEMENT, '#-n'",
+        f"truth tables are exhaustive up to {EXHAUSTIVE_LEAVES} distinct leaves (the generators use at most 14), "
+        f"{SAMPLED_ASSIGNMENTS} random assignments above: a search aid, the theorem is the claim",
     ]
     return ctx.finish(tb, assumptions,
                       "cases = operator programs (& | ~ &= |= W, optionally left/right/operator setters) over 9 surfaces and 5 "
